@@ -37,6 +37,11 @@ def synth_render(kind, W, H, tag=0):
             line = "%s%dX%s%dC" % (CSI, W, CSI, W)
         elif kind == "cuf":
             line = "%s%dC" % (CSI, W)
+        elif kind == "apc":
+            # a graphics-protocol-like line: an APC string carrying data (consumed by the
+            # terminal, as the payload of a graphics command is), then the cells are covered
+            data = "".join("%02x" % ((tag * 13 + y * 7 + i) % 256) for i in range(24))
+            line = "\x1b_Zvf=%d,%d;%s\x1b\\%s%dX%s%dC" % (y, tag, data, CSI, W, CSI, W)
         elif kind == "digits":
             line = "".join(str((tag + x + y) % 10) for x in range(W))
         else:
@@ -174,6 +179,22 @@ class SubjSGR(Subj):
 
     def _handle_interrupted_draw_(self, render_data, render_args, output):
         output.write("\x1b[0m")
+        output.flush()
+
+
+class SubjAPC(Subj):
+    """A subject whose output consists of string-type control sequences (like the graphics
+    protocols): its interruption handler ends a possibly unterminated string (twice, as the
+    library's own graphics styles do) and resets the attributes."""
+
+    def _handle_interrupted_draw_(self, render_data, render_args, output):
+        output.write("\x1b\\\x1b\\\x1b[0m")
+        output.flush()
+
+    def _clear_frame_(self, render_data, render_args, cursor_x, output):
+        # like a graphics style deleting the previous frame's image: one more string-type
+        # command, written between two frames
+        output.write("\x1b_Zvf=clear,x=%d;0123456789abcdef\x1b\\" % cursor_x)
         output.flush()
 
 
